@@ -476,7 +476,7 @@ def evaluate(cases, fresh=(), max_respawn=4, crosscheck=None):
     vals = {}
     if small:
         for i, sh, v in zip(small, shared, balanced_eval(exprs, [len(cases[i]["X"]) for i in small])):
-            vals[i] = tuple(v[:6]) + ((v[2],) if sh else (v[6],)) + tuple(v[7:9])     # same arrays => same C04_check verdict
+            vals[i] = tuple(v[:6]) + ((v[2],) if sh else (v[6],)) + tuple(v[7])     # same arrays => same C04_check verdict; v[7] = model of (Y2, X): (status, Some terms)
     out = []
     bad = []
     for i, (c, runs, nr) in enumerate(zip(cases, res, npres)):
